@@ -134,7 +134,7 @@ func (c *connection) write() {
 	for {
 		select {
 		case <-c.stopChan:
-			clear(record)
+			c.failActiveMessages(record)
 			return
 		case activeMsg, ok := <-c.activeMsgChan: // 平台主动下发的
 			if ok {
@@ -142,15 +142,7 @@ func (c *connection) write() {
 			}
 		case msg, ok := <-c.activeMsgCompleteChan: // 平台主动下发的完成情况
 			if ok {
-				seq := msg.ExtensionFields.PlatformSeq
-				if v, ok := record[seq]; ok {
-					msg.ExtensionFields.PlatformData = v.ExtensionFields.Data
-					msg.ExtensionFields.PlatformCommand = v.Command
-					msg.ExtensionFields.ActiveSend = true
-					c.onWriteExecutionEvent(msg)
-					v.replyChan <- msg
-					delete(record, seq)
-				}
+				c.onActiveCompleteEvent(record, msg)
 			}
 		case subPackMsg, ok := <-c.reissuePackChan: // 分包补传的
 			if ok {
@@ -173,16 +165,47 @@ func (c *connection) write() {
 
 func (c *connection) stop() {
 	c.stopOnce.Do(func() {
+		// 先关闭连接 写协程如果卡在写数据上可以马上返回
+		_ = c.conn.Close()
+		// leave完成以后 不会再有新的主动下发请求路由到这个连接
 		c.leaveFunc(c.key)
 		c.terminalEvent.OnLeaveEvent(c.key)
+		// 只关闭stopChan 其他channel不关闭 (写协程和超时协程还可能往里面发送 关闭会导致send on closed channel)
+		// 写协程收到stopChan后 会给所有还在等待的主动下发请求回复失败
 		close(c.stopChan)
-		_ = c.conn.Close()
 		clear(c.handles)
-		close(c.msgChan)
-		close(c.activeMsgChan)
-		close(c.activeMsgCompleteChan)
-		close(c.reissuePackChan)
 	})
+}
+
+// onActiveCompleteEvent 主动下发的请求完成了(终端应答 超时 或者写失败) 把结果回复给调用方
+func (c *connection) onActiveCompleteEvent(record map[uint16]*ActiveMessage, msg *Message) {
+	seq := msg.ExtensionFields.PlatformSeq
+	if v, ok := record[seq]; ok {
+		msg.ExtensionFields.PlatformData = v.ExtensionFields.Data
+		msg.ExtensionFields.PlatformCommand = v.Command
+		msg.ExtensionFields.ActiveSend = true
+		c.onWriteExecutionEvent(msg)
+		v.replyChan <- msg
+		delete(record, seq)
+	}
+}
+
+// failActiveMessages 连接结束时 所有还没有结果的主动下发请求(已下发等待应答的 和 排队还没下发的)都回复失败
+// 否则调用方会一直阻塞在SendActiveMessage
+func (c *connection) failActiveMessages(record map[uint16]*ActiveMessage) {
+	closeErr := errors.Join(ErrWriteDataFail, errors.New("connection closed"))
+	for seq, v := range record {
+		v.replyChan <- newErrMessage(closeErr)
+		delete(record, seq)
+	}
+	for {
+		select {
+		case activeMsg := <-c.activeMsgChan:
+			activeMsg.replyChan <- newErrMessage(closeErr)
+		default:
+			return
+		}
+	}
 }
 
 func (c *connection) defaultReplyEvent(msg *Message) {
@@ -251,7 +274,8 @@ func (c *connection) onActiveEvent(activeMsg *ActiveMessage, record map[uint16]*
 	}
 	if err != nil {
 		replyMsg.ExtensionFields.Err = errors.Join(ErrWriteDataFail, err)
-		c.activeMsgCompleteChan <- replyMsg
+		// 当前就是写协程 直接处理 不能再往自己消费的channel里发送(满了会死锁)
+		c.onActiveCompleteEvent(record, replyMsg)
 	} else if activeMsg.OverTimeDuration >= 0 {
 		duration := 3 * time.Second
 		if activeMsg.OverTimeDuration > 0 {
@@ -259,14 +283,13 @@ func (c *connection) onActiveEvent(activeMsg *ActiveMessage, record map[uint16]*
 		}
 		go func(overtimeMsg *Message) {
 			time.Sleep(duration)
-			select {
-			case <-c.stopChan:
-				return
-			default:
-			}
 			overtimeMsg.ExtensionFields.Err = errors.Join(ErrWriteDataOverTime,
 				fmt.Errorf("overtime is [%.2f]second", duration.Seconds()))
-			c.activeMsgCompleteChan <- overtimeMsg
+			select {
+			case <-c.stopChan: // 连接已经结束 写协程会统一回复失败
+				return
+			case c.activeMsgCompleteChan <- overtimeMsg:
+			}
 		}(replyMsg)
 	}
 }
@@ -328,7 +351,8 @@ func (c *connection) onActiveRespondEvent(record map[uint16]*ActiveMessage, msg 
 		for k := range record {
 			if tmp.HasRespondFunc(k) {
 				msg.ExtensionFields.PlatformSeq = k
-				c.activeMsgCompleteChan <- msg
+				// 当前就是写协程 直接处理 不能再往自己消费的channel里发送(满了会死锁)
+				c.onActiveCompleteEvent(record, msg)
 				return true
 			}
 		}
